@@ -120,6 +120,15 @@ CLAIMS = {
         note=TB + 'Generic type-parameter paths are excluded by precondition; class names are interned identities; typeEquals / isSubclassOf / inheritanceDistance / inferTypeInfo / getVariableType / findFieldInHierarchy / accept are contract-only stubs or one-record models (the type of an expression and the class tables are uninterpreted). NOT covered: that each rule is invoked in every syntactic position '
              '(~55 further visitor methods) - in particular the CALL-ARGUMENT site (visit(CallExpression&)) compares primitive tags itself and (observed by the native oracle, label site.argument.*) still accepts a class value for a primitive parameter; array-element assignment, postfix on finals, void operands, static-context and instantiation rules, @quantum / @shots rules.',
         ref='DESIGN.md §4 C16'),
+    'C17': dict(
+        text='Proof of the recording and reporting kernel: (unit TRK) RuntimeEvaluator::endScope and ::recordTrackedValue as whole functions - every @tracked qubit / qubit[] entry of the closing scope (arbitrary iteration order, ghost entry index) and every recorded field value contributes exactly one outcome, '
+             'nothing else contributes, the key is "qubit <name>" / "qubit[] <name>" (or the given name), the outcome is "1"/"0" of the last measurement or "?" for a single qubit and, for an array, the bit string of the last measurement of each element in index order, '
+             '"?" exactly if some element is unmeasured or out of range (witness index), exactly one scope is popped (three nested loop contracts); (unit CLI, regions of runImpl) @shots(N) takes precedence over --shots=N, a run without either is a single run, '
+             'echo is shown for --echo=all always, for --echo=none never, in auto mode (named or default) exactly for a single shot, and the probability column is count / the sum of that variable\'s counts (loop contracts; total as an exact integer fold).',
+        note=TB + 'Strings are (literal id, interned name, <= 8 built characters); qubit arrays have <= 8 elements, scopes <= 8 entries, tables <= 8 outcomes (object-size bounds). Double division is an uninterpreted function, so "probabilities lie in [0,1] and sum to 1" is the written real-arithmetic consequence of count / total, checked numerically only by the native oracle. '
+             'For --echo=none the property text ("exactly when --echo=all or a single shot is run") is read with the documented meaning of none (never). NOT covered: that every scope exit calls endScope and every owner destruction calls recordTrackedValue, the accumulation of per-shot tables into the aggregate (nested unordered_map iteration), '
+             'the shot loop itself, sorting and formatting of the table, @shots extraction in the module loader.',
+        ref='DESIGN.md §4 C17'),
     'C20': dict(
         text='Proof of the updater decision logic: parseSemVer (unbounded string length up to 64 bytes, loop contracts on both loops) never raises, is valid only if the first component is a number, '
              'and each component is the std::stoi value of a maximal digit run in order; compareSemVer equals the sign of the numeric lexicographic order over all 2^192 pairs (lemmas: antisymmetric, transitive, '
